@@ -981,15 +981,22 @@ def _flag_attrs(ctx, ci) -> Dict[str, str]:
     return out
 
 
-def _flag_truth(t: ast.AST, env: Dict[str, bool]) -> Optional[bool]:
-    """Truth of a condition over the flag attributes under env; None when it also depends on something else."""
+def _flag_truth(t: ast.AST, env: Dict[str, bool], f=None, depth: int = 0) -> Optional[bool]:
+    """Truth of a condition over the flag attributes under env; None when it also depends on something else.
+    A local assigned once from a condition over the flags (`uses_last_index = self._global or self._sticky`)
+    stands for that condition."""
     if isinstance(t, ast.Attribute) and norm(t.value) == "self" and t.attr in env:
         return env[t.attr]
+    if isinstance(t, ast.Name) and f is not None and depth < 3:
+        vals = [a.value for a in f.own_nodes() if isinstance(a, ast.Assign) and any(isinstance(x, ast.Name) and x.id == t.id for x in a.targets)]
+        if len(vals) == 1:
+            return _flag_truth(vals[0], env, f, depth + 1)
+        return None
     if isinstance(t, ast.UnaryOp) and isinstance(t.op, ast.Not):
-        v = _flag_truth(t.operand, env)
+        v = _flag_truth(t.operand, env, f, depth)
         return None if v is None else not v
     if isinstance(t, ast.BoolOp):
-        vals = [_flag_truth(v, env) for v in t.values]
+        vals = [_flag_truth(v, env, f, depth) for v in t.values]
         if isinstance(t.op, ast.Or):
             if any(v is True for v in vals):
                 return True
@@ -1016,7 +1023,7 @@ def rule_lastindex_conditions_agree(ctx, rep, rid: str) -> None:
     def enabled(node: ast.AST, m: Func, env: Dict[str, bool], depth: int = 0) -> bool:
         """Can node execute under env (conditions that mention nothing but flags decide; others are open)?"""
         for t, pol in known_conditions(node, m.node):
-            v = _flag_truth(t, env)
+            v = _flag_truth(t, env, m)
             if v is not None and v != pol:
                 return False
         if m.name in ("exec", "test") or depth > 2:
@@ -1051,11 +1058,46 @@ def rule_lastindex_conditions_agree(ctx, rep, rid: str) -> None:
             n_obl += 1
             key = f"RegExp:{flags[f]}:{kind}"
             # the reset that answers an unusable start index is not the failure exit of a match
-            real = [(a, m) for a, m in sites if not any(pol and ("None" in norm(t) and "start" in norm(t)) for t, pol in known_conditions(a, m.node))] or sites
+            # resets that answer an unusable start index (not a position of the string, beyond its end) are not
+            # the failure exit of a match
+            real = [(a, m) for a, m in sites if not any(pol and "start" in norm(t) and ("None" in norm(t) or "len(" in norm(t)) for t, pol in known_conditions(a, m.node))] or sites
             if any(enabled(a, m, env) for a, m in real):
                 rep.ok(rid, key)
             else:
                 a, m = real[0]
-                rep.bad(rid, key, f"with only the `{flags[f]}` flag set, exec/test read lastIndex as the start position, but no assignment by which lastIndex is {what} can execute under that flag alone (they are guarded by {sorted({norm(t) for a2, m2 in real for t, pol in known_conditions(a2, m2.node) if _flag_truth(t, env) is not None})}): a `{flags[f]}` regex stays at its old lastIndex", f"{m.module.rel}:{a.lineno}")
+                rep.bad(rid, key, f"with only the `{flags[f]}` flag set, exec/test read lastIndex as the start position, but no assignment by which lastIndex is {what} can execute under that flag alone (they are guarded by {sorted({norm(t) for a2, m2 in real for t, pol in known_conditions(a2, m2.node) if _flag_truth(t, env, m2) is not None})}): a `{flags[f]}` regex stays at its old lastIndex", f"{m.module.rel}:{a.lineno}")
     if n_obl < 2:
         raise AnalysisError(f"{rid}: lastIndex is read under no flag")
+
+
+def rule_start_position_inside_subject(ctx, rep, rid: str) -> None:
+    """The matcher's instructions test `sp >= len(string)` before they read a character, but the anchors and word
+    boundaries of a match that STARTS beyond the end read string[sp] / string[sp - 1] unconditionally.  The driver
+    therefore hands the matcher a start position only after comparing it with the length of the subject."""
+    rep.rule(rid, "the regex driver starts the matcher at a position taken from lastIndex only on paths where that position was compared with the length of the subject (a start beyond the end is a failed match that resets lastIndex, not a run of the matcher)", floor=1)
+    from ..util import atoms, known_conditions
+
+    ci = ctx.tree.mod("regex.regex").classes["RegExp"]
+    n = 0
+    for m in ci.all_methods:
+        if isinstance(m.node, ast.Lambda):
+            continue
+        for c in m.own_nodes():
+            if not (isinstance(c, ast.Call) and isinstance(c.func, ast.Attribute) and c.func.attr in ("match", "search") and len(c.args) >= 2 and isinstance(c.args[1], ast.Name)):
+                continue
+            p = c.args[1].id
+            # does the position come from lastIndex?
+            srcs = [a.value for a in m.own_nodes() if isinstance(a, ast.Assign) and any(isinstance(t, ast.Name) and t.id == p for t in a.targets)]
+            if not any("lastIndex" in norm(v) or "cp_start" in norm(v) or "_start_position" in norm(v) for v in srcs):
+                continue
+            n += 1
+            key = f"{m.qual}:{norm(c.func)}({p})"
+            ats = [(norm(a).replace(" ", ""), pol) for t, pol in known_conditions(c, m.node) for a, pol in atoms(t, pol)]
+            subj = norm(c.args[0])
+            ok = any((a in (f"{p}>len({subj})", f"len({subj})<{p}") and not pol) or (a in (f"{p}<=len({subj})", f"len({subj})>={p}") and pol) for a, pol in ats)
+            if ok:
+                rep.ok(rid, key)
+            else:
+                rep.bad(rid, key, f"{m.qual} starts the matcher at `{p}` (taken from lastIndex) without having compared it with len({subj}): for a sticky regex and a lastIndex beyond the end, `$` in multiline mode, \\\\b and \\\\B read the character at that position and the host raises IndexError", f"{m.module.rel}:{c.lineno}")
+    if n < 1:
+        raise AnalysisError(f"{rid}: no matcher start taken from lastIndex found")
